@@ -20,5 +20,6 @@ INVARIANT Roundtrip
 INVARIANT EwaldBound
 INVARIANT BraggLaw
 INVARIANT AxisLaw
+INVARIANT UnitLaw
 INVARIANT Emit
 CHECK_DEADLOCK FALSE
